@@ -184,6 +184,11 @@ func (c *Contracts) parseFile(pkgPath, file string) error {
 			} else {
 				fc.Full = pkgPath + "." + name
 			}
+			for _, prev := range c.Funcs[fc.Full] {
+				if prev.Case == fc.Case {
+					return fmt.Errorf("%s: duplicate contract for %s (first at %s)", d.src, fc.Full, prev.Src)
+				}
+			}
 			c.Funcs[fc.Full] = append(c.Funcs[fc.Full], fc)
 			curF = fc
 		case "pure":
